@@ -35,7 +35,7 @@ ASSUMPTIONS = ["call functions are deterministic; set/dict members are hashable 
 
 @st.composite
 def cases(draw, max_nodes):
-    spec = draw(specs.plan_specs(max_nodes=max_nodes, opaque=True))
+    spec = draw(specs.plan_specs(max_nodes=max_nodes, opaque=True, shared=True))
     n = len(spec["nodes"])
     runs = []
     for _ in range(3):
@@ -93,6 +93,29 @@ def _collide(spec, a):
     return False
 
 
+def _slot_uses(spec):
+    """slot -> contents at each node-bearing use (build order)."""
+    uses = {}
+
+    def walk(a):
+        if isinstance(a, list):
+            for x in a:
+                walk(x)
+        elif isinstance(a, dict):
+            if "sh" in a and specs.has_ref(a):
+                uses.setdefault(a["sh"], []).append({k: v for k, v in a.items() if k != "sh"})
+            for k, v in a.items():
+                if k in ("L", "T", "S", "D", "items"):
+                    walk(v)
+
+    for nd in spec["nodes"]:
+        for a in specs.node_args(nd):
+            walk(a)
+    if spec.get("output"):
+        walk(spec["output"])
+    return uses
+
+
 def identity_check(refstruct, got, path):
     """Node-free argument sub-objects must be the very objects supplied."""
     t = refstruct[0]
@@ -126,6 +149,11 @@ def check_case(ctx, case, record=True):
             cl.append("unpack")
         if neg:
             cl.append("neg_unpack")
+        uses = _slot_uses(case["spec"])
+        if uses:
+            cl.append("shared_container")
+        if any(len(v) >= 2 and len({repr(x) for x in v}) >= 2 for v in uses.values()):
+            cl.append("shared_container_mutated_between_uses")
         out_spec = case["spec"].get("output")
         cl.append("output:none" if out_spec is None else "output:node" if ("n" in out_spec or "u" in out_spec)
                   else "output:const" if "c" in out_spec else "output:struct")
